@@ -473,7 +473,7 @@ def main(tier, seed):
                     env_b = shrink_history(hist, pub(targets[ti]), refs[ti]['digest'], hs)
                 else:
                     env_b = None
-                S.judge('chain', 'history', ti, targets[ti], a, env_b)
+                S.judge('chain', 'history' if hs == '0' else 'history+hashseed=random', ti, targets[ti], a, env_b)
         ctx.count(f'chain(hashseed={hs})', NT, ())
         ctx.bump(f'chain-max-history-length(hashseed={hs})', maxk)
     judge_chain(run_env('isolated', [{'fn': 'sequence', 'case': c} for c in chain_cases], hashseed='random',
